@@ -72,10 +72,15 @@ func ruleAliasFree(e *Env) {
 		}
 	}
 	// sem.Ver: string fields must be produced by copying conversions from []byte (string(parts[k])) in unmarshalText
-	if fn := e.Fn(rule, "sem", "unmarshalText"); fn != nil {
-		site := flow.FnName(fn)
+	if top := e.Fn(rule, "sem", "unmarshalText"); top != nil {
+		site := flow.FnName(top)
 		n := 0
-		for _, b := range fn.Blocks {
+		// the parser and the functions of the module it reaches (the construction may sit in a helper)
+		var blocks []*ssa.BasicBlock
+		for _, f := range flow.SortedFuncs(e.C.Reachable(top)) {
+			blocks = append(blocks, f.Blocks...)
+		}
+		for _, b := range blocks {
 			for _, in := range b.Instrs {
 				st, ok := in.(*ssa.Store)
 				if !ok {
